@@ -87,6 +87,16 @@ ResultsOk(op, ev, exp) ==
 
 IsConst(ev) == Len(ev.e) > 6 /\ SubSeq(ev.e, 1, 6) = "const:"
 IsSet(ev)   == Len(ev.e) > 4 /\ SubSeq(ev.e, 1, 4) = "set:"
+IsSelfSet(ev) == Len(ev.e) > 8 /\ SubSeq(ev.e, 1, 8) = "selfset:"
+RECURSIVE CutNul(_)
+CutNul(q) == IF q = <<>> \/ Head(q) = 0 THEN <<>> ELSE <<Head(q)>> \o CutNul(Tail(q))
+(* the value after an assignment whose argument lies in the target's own storage *)
+SelfValue(ev, v) ==
+    LET f == SubSeq(ev.e, 9, Len(ev.e)) IN
+    CASE f = "suffix" -> CutNul(Drop(v, ev.k))               \* s = s.c_str() + k   (NUL-terminated form)
+      [] f = "prefix" -> Take(v, ev.k)                       \* s.set(s.c_str(), k)
+      [] f = "view"   -> Drop(v, ev.k)                       \* s = string_view(s.c_str() + k, size - k)
+      [] f = "appendself" -> v \o CutNul(v)                  \* s += s.c_str()
 IsThrowOp(ev) == Len(ev.e) >= 5 /\ SubSeq(ev.e, 1, 5) = "throw"
 
 StepOk(ev, post) ==
@@ -98,6 +108,7 @@ StepOk(ev, post) ==
             /\ ResultsOk(op, ev, exp)
             /\ ConstOpOk(pool, post, ev.b, IF ev.b = 0 THEN <<>> ELSE KeptValue(op, src, exp))
     ELSE IF IsSet(ev) THEN IsLive(pool, ev.a) /\ WriteOk(pool, post, ev.a, ev.data)
+    ELSE IF IsSelfSet(ev) THEN IsLive(pool, ev.a) /\ WriteOk(pool, post, ev.a, SelfValue(ev, pool[ev.a].val))
     ELSE CASE ev.e = "construct" -> ~IsLive(pool, ev.a) /\ WriteOk(pool, post, ev.a, ev.data)
            [] ev.e = "copyconstruct" -> ~IsLive(pool, ev.a) /\ IsLive(pool, ev.b) /\ WriteOk(pool, post, ev.a, pool[ev.b].val)
            [] ev.e = "moveconstruct" -> ~IsLive(pool, ev.a) /\ IsLive(pool, ev.b) /\ ev.a # ev.b /\ MoveOk(pool, post, ev.a, ev.b)
